@@ -82,17 +82,20 @@ class C03(common.Spec):
                     play(self, script)
             return fn
 
-        def mk_exit(st, fails, inst):
+        def mk_exit(st, what, inst):
+            def body(fsm):
+                if what == 'fail':
+                    raise ScriptError('scripted')
+                if what == 'self':
+                    fsm.event(d['events'][0][0], tag=-1)
             if inst:
                 def fn():
                     log.append(['exit', st, True, tagnow()])
-                    if fails:
-                        raise ScriptError('scripted')
+                    body(holder['fsm'])
             else:
                 def fn(self):
                     log.append(['exit', st, False, tagnow()])
-                    if fails:
-                        raise ScriptError('scripted')
+                    body(self)
             return fn
 
         ns = {'STATES': list(d['states']),
@@ -204,6 +207,7 @@ class C03(common.Spec):
             clist(d['timed'], lambda x: cpair(cstr(x[0]), c_etype(x[2]))),
             clist(d['events'], raw_event))
         dur = {'none': 'DNone', 'zero': 'DZero', 'inf': 'DInf', 'pos': 'DPos'}
+        xact = {'log': 'XLog', 'fail': 'XFail', 'self': 'XSelf'}
         inst = ("{| i_cond_inst := %s; i_cond_meth := %s; i_enter_inst := %s; i_enter_meth := %s;\n"
                 "   i_exit_inst := %s; i_exit_meth := %s; i_on_enter := %s; i_on_exit := %s;\n"
                 "   i_on_notrans := %s; i_dur := %s |}") % (
@@ -211,8 +215,8 @@ class C03(common.Spec):
             clist(ins['cond_meth'], lambda x: cpair(cstr(x[0]), cbool(x[1]))),
             clist(ins['enter_inst'], lambda x: cpair(cstr(x[0]), clist(x[1], act))),
             clist(ins['enter_meth'], lambda x: cpair(cstr(x[0]), clist(x[1], act))),
-            clist(ins['exit_inst'], lambda x: cpair(cstr(x[0]), cbool(x[1]))),
-            clist(ins['exit_meth'], lambda x: cpair(cstr(x[0]), cbool(x[1]))),
+            clist(ins['exit_inst'], lambda x: cpair(cstr(x[0]), xact[x[1]])),
+            clist(ins['exit_meth'], lambda x: cpair(cstr(x[0]), xact[x[1]])),
             clist(ins['on_enter'], cstr), clist(ins['on_exit'], cstr), cbool(ins['on_notrans']),
             clist(d['timed'], lambda x: cpair(cstr(x[0]), dur[x[1]])))
 
@@ -319,8 +323,8 @@ def gen_case(rng, nstates=None):
         cond_meth=[[e, rng.random() < 0.7] for e in used if rng.random() < 0.3],
         enter_inst=[[s, script()] for s in states if rng.random() < 0.35],
         enter_meth=[[s, script()] for s in states if rng.random() < 0.35],
-        exit_inst=[[s, rng.random() < 0.07] for s in states if rng.random() < 0.3],
-        exit_meth=[[s, rng.random() < 0.07] for s in states if rng.random() < 0.3],
+        exit_inst=[[s, rng.choice(['log'] * 10 + ['fail', 'self'])] for s in states if rng.random() < 0.3],
+        exit_meth=[[s, rng.choice(['log'] * 10 + ['fail', 'self'])] for s in states if rng.random() < 0.3],
         on_enter=[s for s in states if rng.random() < 0.5],
         on_exit=[s for s in states if rng.random() < 0.5],
         on_notrans=rng.random() < 0.6)
